@@ -219,6 +219,7 @@ class Parser:
         self.current_indent = 0
         self.warnings: list[dict] = []  # I4 audit trail for lenient parsing events
         self.bracket_depth = 0  # GH#184: Track bracket nesting for NEVER rule validation
+        self.block_depth = 0  # Indentation nesting of blocks/sections being parsed (capped like brackets)
         self._deep_nesting_warned_at: set[int] = set()  # Track lines where warning was emitted
 
     def _emit_duplicate_key_warning(self, key: str, key_line: int, key_positions: dict[str, list[int]]) -> None:
@@ -918,7 +919,7 @@ class Parser:
                     break
 
                 # Parse child with any pending comments
-                child = self.parse_section(child_indent, pending_comments)
+                child = self._parse_child(child_indent, pending_comments)
                 pending_comments = []  # Reset after passing to child
                 if child:
                     # GH#294: Track duplicate keys in section children
@@ -1158,7 +1159,7 @@ class Parser:
                         continue
 
                     # Parse child with any pending comments
-                    child = self.parse_section(child_indent, pending_comments)
+                    child = self._parse_child(child_indent, pending_comments)
                     pending_comments = []  # Reset after passing to child
                     if child:
                         # GH#294: Track duplicate keys in block children
@@ -2112,6 +2113,26 @@ class Parser:
 
         # Regular value
         return self.parse_value()
+
+    def _parse_child(self, indent: int, leading_comments: list[str]) -> ASTNode | None:
+        """Parse one child of a block or section, one nesting level deeper.
+
+        Blocks nest by recursion, so indentation depth is capped like bracket depth:
+        beyond MAX_NESTING_DEPTH the input is refused with a positioned ParserError
+        instead of exhausting the interpreter stack (RecursionError).
+        """
+        if self.block_depth >= MAX_NESTING_DEPTH:
+            raise ParserError(
+                f"E_MAX_NESTING_EXCEEDED::Maximum nesting depth of {MAX_NESTING_DEPTH} exceeded. "
+                f"Flatten your structure.",
+                self.current(),
+                "E_MAX_NESTING_EXCEEDED",
+            )
+        self.block_depth += 1
+        try:
+            return self.parse_section(indent, leading_comments)
+        finally:
+            self.block_depth -= 1
 
     def _check_deep_nesting(self, token: Token) -> None:
         """Check for deep nesting and emit warning or raise error.
